@@ -17,9 +17,11 @@ TEXT = dict(
           "re-proved against the file on every run: theorem table_accuracy — for every exponent, entry and EVERY real x in [0,1] the "
           "bracketing piece is within 1.02*max_error of x^k — plus table_structure (knots exactly 0..1 strictly increasing, one "
           "coefficient vector per piece, min_scale strictly decreasing to exactly 0) and select_total_unique (every scale >= 0 "
-          "selects exactly one entry by the code's rule). Regeneration with the documented generator and the partial-moment bound "
-          "are decided by differential execution against the library and 40-digit quadrature.",
-    note="Proved (universal in x and scale): accuracy, structure, selection. Compared only: regeneration tolerances (library code), "
+          "selects exactly one entry by the code's rule) and table_partial_moments (for every location and every scale > 0 the "
+          "piecewise moment of an entry is within 1.02*max_error of the true partial moment, in exact arithmetic). Regeneration with "
+          "the documented generator and the floating-point moment evaluation are decided by differential execution against the "
+          "library and 40-digit quadrature.",
+    note="Proved (universal in x, location and scale): accuracy, structure, selection, partial-moment bound. Compared only: regeneration tolerances (library code), "
          "partial moments vs quadrature on a stratified (loc, scale) set incl. range ends, code selects the entry the model selects. "
          "Untrusted: certificate proposer. Trusted: JSON->rational translator (checked by exact evaluation each run).",
     technique="Lean 4 proof over data translated from the repository on every run (interval Taylor-shift certificates checked by "
